@@ -165,6 +165,7 @@ PLANS["C01"] = {
                           "u6::flat_perm_desc_3", "u6::flat_ltr_3", "u6::flat_last_3", "u6::deep_perm_desc_3", "u6::deep_ltr_3",
                           "u6::flat_perm_desc_4", "u6::flat_ltr_4", "u6::flat_last_4", "u6::deep_perm_desc_4", "u6::deep_ltr_4"]},
     "kani_timeout": {"quick": 900, "thorough": 3000},
+    "kani_jobs": {"thorough": 6},
     "owns_unprefixed": True,
     "cex_map": PLANS["C14"]["cex_map"], "cex_native": PLANS["C14"]["cex_native"], "complete_cross_checks": PLANS["C14"]["complete_cross_checks"],
     "trusted_base": PLANS["C14"]["trusted_base"] + [A_CBMC, A_FMT, A_NOOVF,
@@ -207,25 +208,28 @@ PLANS["C09"] = {
 }
 PLANS["C07"] = {
     "level": "model_checking",
-    "kani": {"quick": ["c07::preconditions_len_0", "c07::preconditions_len_1", "c07::preconditions_len_2"],
-             "thorough": ["c07::preconditions_len_0", "c07::preconditions_len_1", "c07::preconditions_len_2"] + ["c07::preconditions_len_3_a%d" % k for k in range(7)]},
+    "kani": {"quick": ["c07::preconditions_len_0", "c07::preconditions_len_1", "c07::preconditions_len_2"] + ["c07::l3_%d%d" % (a, b) for a in range(7) for b in range(7)],
+             "thorough": ["c07::preconditions_len_0", "c07::preconditions_len_1", "c07::preconditions_len_2"] + ["c07::l3_%d%d" % (a, b) for a in range(7) for b in range(7)]},
+    "native_probes": {"quick": [("c07::preconditions_len_8", 300000)], "thorough": [("c07::preconditions_len_8", 3000000)]},
     "kani_timeout": {"quick": 900, "thorough": 3000},
     "owns_unprefixed": True,
     "trusted_base": [A_CBMC, A_FMT, A_NOOVF], "assumptions": [A_CBMC, A_FMT, A_NOOVF],
     "not_covered": ["operand/operator count check (make_expression, DeepEx::new)", "unknown-character rejection (tokenizer)", "token sequences longer than the bound"],
-    "bounds": {"quick": ["all token sequences of length 0, 1 and 2 over 7 token kinds (symbolic kinds and number payloads)"], "thorough": ["as quick, plus all sequences of length 3"]},
+    "bounds": {"quick": ["all token sequences of length 0, 1, 2 and 3 over 7 token kinds (length 3: 49 harnesses fixing the first two kinds)", "sampled native probe (not a proof): 300000 random sequences of 8 tokens"],
+               "thorough": ["as quick (length 4 was tried: most of the 343 harnesses with three fixed kinds take 3-19 s, a few do not finish in 10 min); the sampled probe runs 3000000 sequences"]},
     "explanation": "Partial, bounded: check_parsed_token_preconditions rejects exactly the documented malformed shapes for every short token sequence.",
 }
 PLANS["C15"] = {
     "level": "model_checking",
     "kani": {"quick": ["c15::consuming_vs_cloning_2", "c15::shape_xyx"],
-             "thorough": ["c15::consuming_vs_cloning_2", "c15::shape_xyx", "c15::consuming_vs_cloning_3", "c15::shape_yxyx", "c15::shape_xlyx", "c15::shape_xxx"]},
+             "thorough": ["c15::consuming_vs_cloning_2", "c15::shape_xyx", "c15::consuming_vs_cloning_3", "c15::shape_yxyx", "c15::shape_xlyx"]},
     "kani_timeout": {"quick": 900, "thorough": 3000},
+    "kani_jobs": {"thorough": 2},
     "owns_unprefixed": True,
     "trusted_base": [A_CBMC, A_FMT, A_NOOVF], "assumptions": [A_CBMC, A_FMT, A_NOOVF],
     "not_covered": ["entry points eval_vec / eval_iter (arity guards, collection of the iterator)", "expressions with more than 3 nodes or more than 2 variables", "unary chains longer than 1"],
     "bounds": {"quick": ["2 nodes, each a symbolic choice of {literal, var 0, var 1} with optional unary function, symbolic values", "the concrete 3-node shape x y x (order: right operator first), symbolic values and unary flags"],
-               "thorough": ["as quick, plus 3 nodes with symbolic shape and application order, plus the concrete shapes x x x, y x y x and x L y x"]},
+               "thorough": ["as quick, plus 3 nodes with symbolic shape and application order, plus the concrete shapes y x y x and x L y x (x x x did not finish in 15 min and is not part of any tier)"]},
     "explanation": "Bounded: eval_flatex_consuming_vars agrees with eval_flatex_cloning and with an independent reference reduction; no moved-out value reaches an operator; single-occurrence variables are not cloned.",
 }
 PLANS["C15"]["native_probes"] = {t: [("c15::consuming_vs_cloning_5", 50000), ("c15::consuming_vs_cloning_36", 20000)] for t in ("quick", "thorough")}
